@@ -50,6 +50,7 @@ class Check:
         self.t0 = time.time()
         self._names: set = set()
         self.replayers: dict = {}        # obligation-name prefix -> callable(vc) -> (status, info)
+        self.crosses: list = []          # CPython cross-check specifications (wgvc.crosscheck.Cross)
 
     # ---- bookkeeping
     def assume_note(self, text: str):
@@ -139,9 +140,15 @@ class Check:
         return paths
 
     # ---- discharge and report
+    def cross(self, c):
+        self.crosses.append(c)
+
     def run(self):
         second = self.tier == "thorough"
         smt.discharge(self.vcs, second_opinion=second)
+        if self.crosses and not os.environ.get("WGVC_NO_CROSSCHECK"):
+            from .crosscheck import run_crosses
+            run_crosses(self, self.crosses, 200 if self.tier == "thorough" else 20)
 
     def finish(self, known_findings: list, min_obligations: int = 1, extra_cov: dict | None = None) -> int:
         from . import report
